@@ -6,6 +6,7 @@ import (
 
 	"github.com/aperturerobotics/util/backoff"
 	"github.com/aperturerobotics/util/broadcast"
+	"github.com/aperturerobotics/util/verifhook"
 	cbackoff "github.com/cenkalti/backoff/v4"
 	"github.com/sirupsen/logrus"
 )
@@ -294,6 +295,7 @@ func (r *runningRoutine) execute(
 	exitedCh chan struct{},
 	waitCh <-chan struct{},
 ) {
+	verifhook.Point(verifhook.RoutineExecStart, r.r)
 	var err error
 	if waitCh != nil {
 		select {
@@ -308,8 +310,10 @@ func (r *runningRoutine) execute(
 	}
 
 	if err == nil {
+		verifhook.Point(verifhook.RoutineExecCall, r.r)
 		err = r.routine(ctx)
 	}
+	verifhook.Point(verifhook.RoutineExecDone, r.r)
 	cancel()
 	close(exitedCh)
 
@@ -330,6 +334,7 @@ func (r *runningRoutine) execute(
 					dur := r.r.retryBo.NextBackOff()
 					if dur != backoff.Stop {
 						r.deferRetry = time.AfterFunc(dur, func() {
+							verifhook.Point(verifhook.RoutineTimer, r.r)
 							r.r.bcast.HoldLock(func(broadcast func(), getWaitCh func() <-chan struct{}) {
 								if r.r.ctx != nil && r.r.routine == r && r.exited {
 									r.start(r.r.ctx, r.exitedCh, true)
